@@ -401,17 +401,76 @@ class World:
             def finalize_with_tag(self, tag):
                 return self._finish(tag)
 
+        class UnauthMode:
+            """CBC / CTR / CFB / OFB / ECB ...: a mode that does not authenticate"""
+
+            def __init__(self, *a, **k):
+                self.args = a
+
+        class UnauthDecryptor:
+            """decryption without authentication succeeds on every input and yields octets unrelated to anything the harness knows"""
+
+            def __init__(self):
+                self.n = 0
+
+            def update(self, data):
+                n = V.blen(data)
+                if isinstance(n, int) and n <= 4096:
+                    return world.fresh("unauth", n) if n else b""
+                world.n += 1
+                return world.c.blob_of_len(f"unauth{world.n}", n)
+
+            def finalize(self):
+                return b""
+
         class FakeCipher:
             def __init__(self, algorithm, mode, backend=None):
                 self.algorithm, self.mode = algorithm, mode
 
             def decryptor(self):
+                if isinstance(self.mode, UnauthMode):
+                    return UnauthDecryptor()
                 return Decryptor(self.algorithm.key, self.mode)
 
             def encryptor(self):
                 raise NotImplementedError("streaming encryption is not modelled")
 
-        return [(Cipher, FakeCipher), (algorithms.AES, FakeAES), (modes.GCM, FakeGCM)]
+        class FakePKCS7:
+            def __init__(self, block_size):
+                self.block = block_size // 8
+
+            def unpadder(self_):
+                class Unpadder:
+                    def __init__(self):
+                        self.buf = []
+
+                    def update(self, data):
+                        self.buf.append(data)
+                        return b""
+
+                    def finalize(self):
+                        data = _cat(self.buf)
+                        n = V.blen(data)
+                        if not truth(all_of([_sb(n > 0), _sb(n % self_.block == 0)])):
+                            raise ValueError("Invalid padding bytes.")
+                        k = data[n - 1]
+                        if not truth(all_of([_sb(k >= 1), _sb(k <= self_.block)])):
+                            raise ValueError("Invalid padding bytes.")
+                        k = world.c.concretize(k)
+                        tail = V.seq_items(data[n - k :])
+                        if not truth(all_of([_sb(t == k) for t in tail])):
+                            raise ValueError("Invalid padding bytes.")
+                        return data[: n - k]
+
+                return Unpadder()
+
+            def padder(self):
+                raise NotImplementedError("padding is not modelled")
+
+        from cryptography.hazmat.primitives import padding
+
+        unauth = [(getattr(modes, m), UnauthMode) for m in ("CBC", "CTR", "ECB", "XTS") if hasattr(modes, m)]
+        return [(Cipher, FakeCipher), (algorithms.AES, FakeAES), (modes.GCM, FakeGCM), (padding.PKCS7, FakePKCS7)] + unauth
 
     def stubs(self, kdf_fn, kdf_concat_fn=None):
         """stub list: kdf_fn / kdf_concat_fn are dpapi_ng._crypto.kdf / kdf_concat (the wrappers themselves are C03's subject)"""
